@@ -544,6 +544,17 @@ def with_heap(I, env):
     return out
 
 
+def loop_root(L, env):
+    """the outermost loop around L (L included) that is not being iterated already in this evaluation context"""
+    inl = env.get("__inloops__", frozenset())
+    root = L
+    p = getattr(L, "parent", None)
+    while p is not None and p.lid not in inl:
+        root = p
+        p = getattr(p, "parent", None)
+    return root
+
+
 def run_loop(L, env, group, cap=4096):
     """Run one loop summary concretely.  Returns (values produced by the `group` rep items, in order; final values of
     the loop-carried locations keyed by location)."""
@@ -561,6 +572,7 @@ def run_loop(L, env, group, cap=4096):
             raise CannotEval("loop %d does not end within %d iterations" % (L.lid, cap))
         e2 = dict(env)
         e2[L.idx] = i
+        e2["__inloops__"] = env.get("__inloops__", frozenset()) | {L.lid}
         for w, v in state.items():
             if w in lvs:
                 e2[lvs[w]] = v
@@ -569,9 +581,21 @@ def run_loop(L, env, group, cap=4096):
                 break
         elif not bool(evaluate(L.cond, e2)):
             break
-        for g in group:
-            if bool(evaluate(g[3], e2)):
-                out.append(evaluate(g[2], e2))
+        j = 0
+        while j < len(group):
+            g = group[j]
+            if g[1] is L:
+                if bool(evaluate(g[3], e2)):
+                    out.append(evaluate(g[2], e2))
+                j += 1
+                continue
+            # elements added by a loop nested in this one: run it within this iteration
+            child = loop_root(g[1], e2)
+            sub = []
+            while j < len(group) and group[j][1] is not L and loop_root(group[j][1], e2) is child:
+                sub.append(group[j])
+                j += 1
+            out.extend(run_loop(child, e2, sub, cap)[0])
         stop = any(bool(evaluate(sc, e2)) for sc in L.stops)
         new_state = {}
         for name, (init, nxt, d, w) in L.carried.items():
@@ -607,9 +631,9 @@ def eval_items(items, env, cap=4096):
                     out.append(evaluate(v, env))
             k += 1
             continue
-        L = it[1]
+        L = loop_root(it[1], env)
         group = []
-        while k < len(items) and items[k][0] == "rep" and items[k][1] is L:
+        while k < len(items) and items[k][0] == "rep" and loop_root(items[k][1], env) is L:
             group.append(items[k])
             k += 1
         out.extend(run_loop(L, env, group, cap)[0])
